@@ -206,6 +206,26 @@ impl BigRat {
 		if negative {
 			f = -f;
 		}
+		if !f.is_finite() {
+			// NaN or an overflowed result (e.g. sinh 1000)
+			return Err(FendError::ValueTooLarge);
+		}
+		if f >= u64::MAX as f64 {
+			// the fixed-point conversion below would saturate; a float this
+			// large is an integer, so decode it exactly instead
+			let bits = f.to_bits();
+			let exponent = (bits >> 52) & 0x7ff;
+			let mantissa = (bits & ((1 << 52) - 1)) | (1 << 52);
+			return Ok(Self {
+				sign: if negative {
+					Sign::Negative
+				} else {
+					Sign::Positive
+				},
+				num: BigUint::from(mantissa).lshift_n(&BigUint::from(exponent - 1075), int)?,
+				den: BigUint::from(1),
+			});
+		}
 		let i = (f * u64::MAX as f64) as u128;
 		let part1 = i as u64;
 		let part2 = (i >> 64) as u64;
